@@ -1,4 +1,8 @@
-"""C01 — running any LPC program is memory-safe; the worst outcome is an LPC error (DESIGN §3 C01)."""
+"""C01 — running any LPC program is memory-safe; the worst outcome is an LPC error (DESIGN §3 C01).
+
+E2 enumeration with h_c01: element = (form, argument tuple); forms = 240-odd operator forms + one wrapper per
+efun x argument count generated from the efuns_definition.h of the build under test; tuples = full Cartesian power
+of a value alphabet per kind x arity.  Every element runs in its own forked copy of the initialised driver."""
 import json, os, subprocess, sys
 import vlib
 import build as B
@@ -7,6 +11,29 @@ SRC = ["h/h_c01.c", "wrap/w_c01_errctx.c"]
 FMT_WRAPS = ["vsnprintf", "vsprintf", "vfprintf", "vprintf", "vasprintf", "vdprintf", "vsyslog", "strftime",
              "snprintf", "sprintf", "fprintf", "printf", "asprintf", "dprintf", "sscanf", "__isoc99_sscanf",
              "fscanf", "__isoc99_fscanf", "syslog"]
+V_TEXT = ("V (35 values) = {0, 1, -1, 2^31-1, 2^31, -2^31, 2^32, 2^32+1, 2^63-1, -2^63, 0.0, -1.5, 1e308, \"\", \"a\", "
+          "shared \"abc\", malloc'd \"abc\", \"ZQ%nZQ%sZQ%x\", a 65600-byte string, ({}), ({1,\"a\"}), self-containing array, "
+          "array with two holders, ([]), ([\"a\":1]), 0-byte buffer, 4-byte buffer, class instance, efun/local/functional "
+          "function pointer, this_object(), an object destructed after the arguments were pushed, undefined, ({destructed object})}; "
+          "nolong = V minus the 65600-byte string; l4 = {0,\"a\",65600-byte string,({1,\"a\"})}; "
+          "s16 = {0,1,-1,2^31,2^63-1,-2^63,-1.5,\"a\",taint,65600-byte,({1,\"a\"}),([\"a\":1]),4-byte buffer,class,local funptr,this_object()}; "
+          "s12 = s16 minus {-1.5, buffer, class, funptr}; s8 = {0,-1,2^63-1,\"a\",taint,({1,\"a\"}),([\"a\":1]),this_object()}; "
+          "s6 = {0,-1,2^63-1,malloc'd \"abc\",({1,\"a\"}),4-byte buffer}")
+
+# alphabets per kind (op/ef) and arity 0..4
+TIERS = {
+    "quick": [
+        ("main", dict(op0="full", op1="full", op2="full", op3="s12", op4="s6",
+                      ef0="full", ef1="full", ef2="nolong", ef3="s8", ef4="s6")),
+        ("long2", dict(op0="none", op1="none", op2="none", op3="none", op4="none",
+                       ef0="none", ef1="none", ef2="l4", ef3="none", ef4="none")),
+    ],
+    "thorough": [
+        ("main", dict(op0="full", op1="full", op2="full", op3="full", op4="s8",
+                      ef0="full", ef1="full", ef2="full", ef3="s16", ef4="s8")),
+    ],
+}
+DEADLINE = {"quick": 200, "thorough": 2100}
 
 
 def gen_dir():
@@ -24,3 +51,87 @@ def build(ck):
             sys.stderr.write(r.stdout)
             raise SystemExit("c01_gen failed")
     return {"h_c01": exe}
+
+
+def part_args(alpha, tag, extra=()):
+    a = ["--mudlib=" + gen_dir(), "--stats=" + os.path.join(vlib.OUT, "C01-%s-stats.json" % tag)]
+    a += ["--%s=%s" % kv for kv in sorted(alpha.items())]
+    return a + list(extra)
+
+
+def run(ck):
+    exe = build(ck)["h_c01"]
+    jobs = int(os.environ.get("VERIF_JOBS", "16"))
+    stats = {}
+    budget = DEADLINE[ck.tier]
+    for tag, alpha in TIERS[ck.tier]:
+        left = max(30, int(budget - (vlib.time.time() - ck.t0)))
+        ck.enum(exe, part_args(alpha, tag), tag, batch=250, deadline_s=left, timeout_ms=120000, jobs=jobs)
+        sp = os.path.join(vlib.OUT, "C01-%s-stats.json" % tag)
+        if os.path.exists(sp):
+            for f in json.load(open(sp))["forms"]:
+                s = stats.setdefault(f["name"], dict(f, elements=0, calls=0, values=0, badarg=0, othererr=0, nonreturn=0, alphabets=[]))
+                for k in ("elements", "calls", "values", "badarg", "othererr", "nonreturn"):
+                    s[k] += f[k]
+                if f["elements"]:
+                    s["alphabets"].append(f["alphabet"])
+    # per-efun non-trivial = calls that got past the run-time type check into the efun body
+    efuns = {}
+    for f in stats.values():
+        if f["kind"] != "efun":
+            continue
+        e = efuns.setdefault(f["efun"], dict(calls=0, nontrivial=0, arities=[]))
+        e["calls"] += f["calls"] + f["nonreturn"]
+        e["nontrivial"] += f["values"] + f["othererr"] + f["nonreturn"]
+        e["arities"].append(f["arity"])
+    excluded = [l.rstrip("\n").split("\t") for l in open(os.path.join(gen_dir(), "excluded.txt"))]
+    all_efuns = [l.split("\t")[0] for l in open(os.path.join(gen_dir(), "efuns.txt"))]
+    uncompiled = sorted("%s: %s" % (f["name"], f["cerr"]) for f in stats.values() if not f["compiled"])
+    ops = [f for f in stats.values() if f["kind"] == "op"]
+    rule = ("every element of  U_forms  A(kind,arity)^arity : forms = %d operator forms (binary/unary/assignment operators on local, global, "
+            "indexed, reverse-indexed, class-member, char targets; index/rindex; 6 range + 6 range-lvalue forms; foreach; loops; casts; "
+            "function pointers; calls; aggregates/varargs expansion; catch; switch; sscanf; parse_command) + %d efun wrappers (every efun of "
+            "the generated efuns_definition.h x every argument count min..min(max,3), varargs and 4-argument efuns up to 4); alphabets %s; %s"
+            % (len(ops), len(stats) - len(ops), json.dumps(dict(TIERS[ck.tier])), V_TEXT))
+    extra = {
+        "forms": len(stats), "operator_forms": len(ops), "efun_forms": len(stats) - len(ops),
+        "efuns_in_build": len(all_efuns), "efuns_called": len(efuns),
+        "efuns_excluded": ["%s (%s)" % tuple(x) for x in excluded],
+        "efuns_with_zero_nontrivial_calls": sorted(e for e, v in efuns.items() if v["nontrivial"] == 0),
+        "forms_not_compilable": uncompiled,
+        "operator_forms_with_zero_nontrivial_calls": sorted(f["name"] for f in ops if f["values"] + f["othererr"] + f["nonreturn"] == 0),
+        "per_efun_nontrivial": {e: v["nontrivial"] for e, v in sorted(efuns.items())},
+        "counters": {k: sum(p.get("counters", {}).get(k, 0) for p in ck.parts) for k in
+                     ("calls", "returned_value", "lpc_error", "bad_argument_error", "eval_cost_error", "mudlib_root_restored",
+                      "instructions", "late_destruct_calls")},
+        "explanation": "distinct_nontrivial counts calls that returned a value or raised an error other than the run-time type check's 'Bad argument' "
+                       "(i.e. reached the opcode/efun body); calls that killed the process are counted as non-trivial too",
+    }
+    ck.finish(vlib.enum_coverage(ck.parts, rule, "nontrivial", extra),
+              assumptions=[
+                  "each call runs in a fork()ed copy of the initialised driver with its own scratch mudlib root (copy of fx/: a.c abc.c a.o abc master.c ...); nothing under /verif/mudlib is written",
+                  "master: valid_read/valid_write/valid_seteuid allow, valid_socket refuses; no interactive user exists; MaxEvaluationCost 200000",
+                  "efuns not called: " + ", ".join(x[0] for x in excluded),
+                  "signed-overflow / shift UBSan checks are off (the property does not list them); SIGFPE from integer division is reported because it terminates the driver",
+                  "allocations above 3 GiB are refused by the sanitizer allocator (max_allocation_size_mb), quarantine is 16 MiB per process",
+                  "the destructed-object value is a live object that the H1 hook destructs after the arguments were pushed (simple forms) or that is destructed before the call (other forms)",
+              ])
+
+
+def selftest(ck):
+    """break the harness model / the environment (never the repo): every oracle channel must fire"""
+    exe = build(ck)["h_c01"]
+    want = {1: "asan:heap-buffer-overflow:READ", 2: "vm-imbalance:sp:", 3: "format-taint:snprintf:", 4: "pc-outside-program:", 5: "driver-exit:exit(3)"}
+    bad = 0
+    alpha = dict(op0="none", op1="none", op2="s6", op3="none", op4="none", ef0="none", ef1="none", ef2="none", ef3="none", ef4="none")
+    for st, key in want.items():
+        ck2 = vlib.Check("C01", "quick", 0, LEVEL)
+        tag = "selftest%d" % st
+        ck2.enum(exe, part_args(alpha, tag, ["--only=bin_eq", "--selftest=%d" % st]), tag, batch=50, jobs=4)
+        hit = [k for k in ck2.fails if k.startswith(key)]
+        if ck2.broken or not hit:
+            print("SELFTEST-FAILED C01 variant %d: expected a key starting with %s, got %s %s" % (st, key, sorted(ck2.fails)[:5], ck2.broken or ""))
+            bad = 1
+        else:
+            print("selftest %d ok: %s" % (st, hit[0]))
+    return bad
